@@ -75,7 +75,7 @@ def gen_wrappers(prop, harnesses):
     for h in harnesses:
         out.append('#[kani::proof]')
         if h.get('unwind') is not None:
-            out.append('#[kani::unwind(%d)]' % h['unwind'])
+            out.append('#[kani::unwind(%d)]' % int(os.environ.get('VERIF_UNWIND_OVERRIDE', h['unwind'])))
         if h.get('should_panic'):
             out.append('#[kani::should_panic]')
         for (orig, repl) in h.get('stubs', []):
